@@ -175,9 +175,9 @@ def main(ctx):
     vac.append(("binary run with -e", sum(v for k, v in ctx.classes.items() if k.startswith("binary-flags/-e"))))
     # T ---------------------------------------------------------------------------------------
     trace = ctx.path("trace.ndjson")
-    ctx.harness(["record", "C12", "--out", trace, "--n", 2400 if thorough else 280, "--opt", "sheets=%d" % (160 if thorough else 40)],
+    ctx.harness(["record", "C12", "--out", trace, "--n", 2400 if thorough else 200, "--opt", "sheets=%d" % (160 if thorough else 40)],
                 timeout=900)
-    wolf = wolf_events(ctx, bindir, 1500 if thorough else 120)
+    wolf = wolf_events(ctx, bindir, 1500 if thorough else 60)
     allev = ctx.path("events.ndjson")
     with open(allev, "wb") as out:
         for p in (rev, trace, wolf):
@@ -208,7 +208,7 @@ def main(ctx):
             tcls["T:two-records"] = tcls.get("T:two-records", 0) + 1
         if ev["none"] == 1:
             tcls["T:flagged-read"] = tcls.get("T:flagged-read", 0) + 1
-    for need in ("R-events", "T:forward", "T:reverse", "T:chimera", "T:partial", "T:nosite", "T:tiny", "T:primer-mismatch", "T:over-budget",
+    for need in ("R-events", "T:forward", "T:reverse", "T:chimera", "T:partial", "T:nosite", "T:tiny", "T:dangling-site", "T:primer-mismatch", "T:over-budget",
                  "T:tag-sub", "T:tag-del", "T:tag-ins", "T:primer-indel", "T:indel-primers", "T:delimiter", "T:rescue",
                  "T:mode-strict", "T:mode-hamming", "T:mode-indel", "T:fmt-csv", "T:fmt-old", "T:assigned", "T:assigned-delimiter",
                  "T:flagged-amplicon", "T:two-records", "T:flagged-read"):
